@@ -59,18 +59,22 @@ package headsync
 //@   ensures [one_result_per_range] err == nil ==> resp != nil && len(resp.Results) == len(res)
 //@   ensures [count_copied] err == nil ==> (forall i int :: 0 <= i && i < len(res) ==> resp.Results[i] != nil && resp.Results[i].Count == wrap32(res[i].Count))
 //@   ensures [no_element_dropped] err == nil ==> (forall i int :: 0 <= i && i < len(res) ==> len(resp.Results[i].Elements) == len(res[i].Elements))
+//@   ensures [element_lists_are_separate] err == nil ==> (forall i int, j int :: 0 <= i && i < j && j < len(res) && len(resp.Results[j].Elements) > 0 ==> rootof(resp.Results[i].Elements) < rootof(resp.Results[j].Elements))
 //@   loop 0:
 //@     invariant -1 <= rangeindex && rangeindex < len(req.Ranges) && len(ranges) == rangeindex + 1
 //@   loop 1:
 //@     invariant -1 <= rangeindex && rangeindex < len(res) && resp != nil && len(resp.Results) == rangeindex + 1
 //@     invariant forall i int :: 0 <= i && i < len(resp.Results) ==> resp.Results[i] != nil && resp.Results[i].Count == wrap32(res[i].Count)
 //@     invariant forall i int :: 0 <= i && i < len(resp.Results) ==> len(resp.Results[i].Elements) == len(res[i].Elements)
+//@     invariant forall i int, j int :: 0 <= i && i < j && j < len(resp.Results) && len(resp.Results[j].Elements) > 0 ==> rootof(resp.Results[i].Elements) < rootof(resp.Results[j].Elements)
 //@   loop 2:
 //@     invariant -1 <= rangeindex && rangeindex < len(rangeRes.Elements) && len(elements) == rangeindex + 1 && resp != nil && len(resp.Results) < len(res)
 //@     invariant rootof(elements) > rootof(resp.Results) && rootof(elements) > rootof(res) && rootof(elements) > rootof(resp)
 //@     invariant forall i int :: 0 <= i && i < len(resp.Results) ==> rootof(elements) > rootof(resp.Results[i])
 //@     invariant forall i int :: 0 <= i && i < len(resp.Results) ==> resp.Results[i] != nil && resp.Results[i].Count == wrap32(res[i].Count)
 //@     invariant forall i int :: 0 <= i && i < len(resp.Results) ==> len(resp.Results[i].Elements) == len(res[i].Elements)
+//@     invariant forall i int, j int :: 0 <= i && i < j && j < len(resp.Results) && len(resp.Results[j].Elements) > 0 ==> rootof(resp.Results[i].Elements) < rootof(resp.Results[j].Elements)
+//@     invariant forall i int :: 0 <= i && i < len(resp.Results) ==> rootof(resp.Results[i].Elements) < rootof(elements)
 
 // ---------------------------------------------------------------------------------------------
 // C11: the client side of the head-sync adapter handles any decoded response without indexing out of
